@@ -360,7 +360,7 @@ func (rc *runCtx) check(prop string, t0 time.Time) int {
 	var sel []*Obligation
 	fnHas := map[string]bool{}
 	for _, o := range all {
-		if o.Kind != "canary" && match(o.Name) {
+		if o.Kind != "canary" && o.Kind != "canary2" && match(o.Name) {
 			sel = append(sel, o)
 			fnHas[o.Fn] = true
 		}
@@ -368,6 +368,9 @@ func (rc *runCtx) check(prop string, t0 time.Time) int {
 	for _, o := range all {
 		if o.Kind == "canary" && fnHas[o.Fn] {
 			sel = append(sel, o)
+		}
+		if o.Kind == "canary2" && fnHas[o.Fn] && rc.tier == "thorough" {
+			sel = append(sel, o) // per-call-site vacuity canaries: thorough tier only (two extra queries per call)
 		}
 	}
 	// every pattern must match something (a contract clause that no longer attaches is a lost proof)
@@ -407,6 +410,9 @@ func (rc *runCtx) check(prop string, t0 time.Time) int {
 	}
 	sort.Strings(gorder)
 	repDir := filepath.Join(rc.verif, "replays", prop)
+	if os.Getenv("VERIF_SELFTEST_CHILD") != "" {
+		repDir = filepath.Join(rc.scratch, "replays", prop)
+	}
 	os.RemoveAll(repDir)
 	violations := 0
 	discharged := 0
@@ -441,15 +447,15 @@ func (rc *runCtx) check(prop string, t0 time.Time) int {
 		solverMs += ms
 		o0 := g.obls[0]
 		rec := map[string]interface{}{"name": name, "kind": o0.Kind, "solver": solver, "ms": ms, "max_query_ms": maxMs, "queries": len(g.obls), "vc_bytes": bytes, "clause": o0.Src}
-		if o0.Kind == "canary" {
-			canaries++
+		if o0.Kind == "canary" || o0.Kind == "canary2" {
+			canaries += len(g.obls)
 		}
 		if ok {
 			discharged++
 			bySolver[solver]++
 			rec["status"] = "discharged"
 			fmt.Printf("ok    %-90s %-9s %5d ms\n", name, solver, ms)
-			if len(samples) < 3 && o0.Kind != "canary" && o0.Goal != "true" {
+			if len(samples) < 3 && o0.Kind != "canary" && o0.Kind != "canary2" && o0.Goal != "true" {
 				g := o0.Goal
 				if len(g) > 1500 {
 					g = g[:1500] + " ..."
@@ -480,7 +486,7 @@ func (rc *runCtx) check(prop string, t0 time.Time) int {
 				out = out[:4000]
 			}
 			reason := status
-			if worst.Kind == "canary" {
+			if worst.Kind == "canary" || worst.Kind == "canary2" {
 				reason = "vacuity: the assumptions of this function are contradictory (solver proved that no return is reachable)"
 			}
 			rp := map[string]interface{}{"property": prop, "obligation": name, "kind": worst.Kind, "clause": worst.Src, "solver_status": reason,
@@ -609,6 +615,19 @@ func (rc *runCtx) check(prop string, t0 time.Time) int {
 	}
 	if len(bounded) > 0 {
 		cov["bounded"] = bounded
+	}
+	if rc.tier == "thorough" {
+		st := rc.selftest(prop)
+		caught := 0
+		for _, r := range st {
+			if r.Caught {
+				caught++
+				fmt.Printf("ok    selftest: seeded change %s is caught (%s)\n", r.Seed, strings.Join(r.Failing, " "))
+			} else {
+				fmt.Printf("WEAK  selftest: seeded change %s is NOT caught by this check %s\n", r.Seed, r.Note)
+			}
+		}
+		cov["must_fail_corpus"] = map[string]interface{}{"seeded_changes": len(st), "caught": caught, "results": st}
 	}
 	ev := map[string]interface{}{"property_id": prop, "tier": rc.tier, "seed": rc.seed, "level": "proof", "coverage": cov,
 		"assumptions": assumptions, "wall_s": time.Since(t0).Seconds(), "violations": violations}
